@@ -19,6 +19,7 @@ C10-b a negative target returns an error and the store to the cursor is dominate
 C10-c closed guard: Close stores a sentinel (a field set to nil/true, or the whole struct zeroed); Read and Seek test that sentinel before touching any other field of the handle and return a non-nil error on the closed edge.
 C10-d clamp dependence: every addend of the count Read returns, and the length of every ReadAt/copy that places bytes into the caller's buffer, depends (by data flow or through the comparison that selects it) on both the file size and the cursor, i.e. on the bytes that remain; an addend that depends only on len(b) or the cluster size has the same value with 1 byte left as with 1 MiB left.
 C10-e EOF: io.EOF is returned under a comparison between cursor and size, and the cursor advances by exactly the addends of the returned count.
+C10-f in the extent loops of ext4 File.Read/Write the device offset of each transfer depends on a value the transfer's own count updates (the advancing cursor), not on a position taken once before the loop.
 Decides these clauses, not which bytes are returned.`)
 }
 
@@ -67,6 +68,8 @@ func runC10(w *World, r *Report) {
 		c10Closed(w, r, t)
 		c10Read(w, r, t)
 	}
+	c10ExtentCursor(w, r)
+	r.Floor("C10-f", r.countRule("C10-f"), 2)
 	r.Floor("C10 implementers", n, 4)
 	r.Floor("C10-a", r.countRule("C10-a"), 12)
 	r.Floor("C10-c", r.countRule("C10-c"), 8)
@@ -698,3 +701,96 @@ func valuePos(v ssa.Value) token.Pos {
 }
 
 func instrPosOfValue(v ssa.Value) token.Pos { return valuePos(v) }
+
+// c10ExtentCursor (C10-f): in the extent loops of ext4 File.Read / File.Write the device offset of each transfer is
+// computed from the advancing cursor: it depends on a value that the transfer's own count updates (a loop-carried
+// accumulator, or a field stored inside the loop from the count). A position taken once before the loop is right for
+// the first extent only: a read that crosses into a second extent returns bytes from the wrong place.
+func c10ExtentCursor(w *World, r *Report) {
+	for _, mn := range []string{"Read", "Write"} {
+		fn := w.Method("filesystem/ext4", "File", mn)
+		k := 0
+		for _, cc := range calls(fn, false, func(c ssa.CallInstruction) bool { return isReadAt(c) || isWriteAt(c) }) {
+			c, ok := cc.(*ssa.Call)
+			if !ok {
+				continue
+			}
+			loop := cycleThrough(c.Block())
+			if len(loop) == 0 {
+				continue
+			}
+			k++
+			dependsOnCount := func(v ssa.Value) bool {
+				for _, rt := range w.prov(v, provOpts{}).Roots {
+					if rt.Kind == RCall && rt.Call == ssa.CallInstruction(c) {
+						return true
+					}
+				}
+				return false
+			}
+			// accumulators
+			accPhi := map[*ssa.Phi]bool{}
+			accField := map[*types.Var]bool{}
+			for b := range loop {
+				for _, ins := range b.Instrs {
+					switch x := ins.(type) {
+					case *ssa.Phi:
+						for _, e := range x.Edges {
+							if dependsOnCount(e) {
+								accPhi[x] = true
+							}
+						}
+					case *ssa.Store:
+						if _, f, _, ok := fieldOfAddr(x.Addr); ok && dependsOnCount(x.Val) {
+							accField[f] = true
+						}
+					}
+				}
+			}
+			args := argsOf(c)
+			off := args[len(args)-1]
+			seen := map[ssa.Value]bool{}
+			found := false
+			var walk func(v ssa.Value, d int)
+			walk = func(v ssa.Value, d int) {
+				if v == nil || seen[v] || found || d > 30 {
+					return
+				}
+				seen[v] = true
+				switch x := v.(type) {
+				case *ssa.Phi:
+					if accPhi[x] {
+						found = true
+						return
+					}
+					for _, e := range x.Edges {
+						walk(e, d+1)
+					}
+				case *ssa.UnOp:
+					if x.Op == token.MUL {
+						if _, f, _, ok := fieldOfAddr(x.X); ok && accField[f] && loop[x.Block()] {
+							found = true
+							return
+						}
+						return
+					}
+					walk(x.X, d+1)
+				case *ssa.BinOp:
+					walk(x.X, d+1)
+					walk(x.Y, d+1)
+				case *ssa.Convert:
+					walk(x.X, d+1)
+				case *ssa.ChangeType:
+					walk(x.X, d+1)
+				}
+			}
+			walk(off, 0)
+			name := callMethodName(c)
+			r.Check(found, "C10-f", fnName(fn), fmt.Sprintf("offset of %s #%d in the extent loop follows the advancing cursor", name, k), w.relFile(c.Pos()), "",
+				"the device offset of this transfer does not depend on anything the transfer's own byte count updates (loop accumulator or cursor field stored in the loop): it is computed from a position taken before the loop, which is right for the first extent only")
+		}
+		if k == 0 {
+			r.Fail("C10-f", fnName(fn), "extent loop", w.relFile(fn.Pos()), "no device transfer inside a loop found in ext4 File."+mn)
+		}
+	}
+}
